@@ -30,7 +30,8 @@ RULE = ("seeded generator of (a) v14 mania texts: keys 1..18, x on every column'
         "distinct by hash of the canonical JSON of the input")
 ASSUMPTIONS = [
     "float printing (repr, str(float), ':g') is an oracle: written numeric tokens are compared by parsed value (rel. 1e-9); "
-    "metadata floats are generated with <= 6 significant digits (':g' is lossy beyond that: outside the claimed domain)",
+    "metadata floats are generated with <= 6 significant digits (':g' is lossy beyond that: outside the claimed domain); in the "
+    "whole-file theorems the printers are parameters with the hypothesis 'what is printed reads back as the value printed'",
     "binary64 rounding inside float()/60000.0/x/-100.0/x is not modelled: exact stream uses float-exact numerals (tolerance 0), "
     "rounded stream tolerance 1e-9 relative; x_axis_to_column is pure integer arithmetic (x * keys // 512) and is modelled exactly",
     "unidecode(Title/Artist) is an external oracle: its output is passed into the case and tested to be ASCII and a fixed point",
@@ -42,20 +43,30 @@ TRUSTED = ["unidecode (external library) as oracle for Title/Artist transliterat
 MANIFEST = dict(
     text="Machine-checked theorems (Coq 8.16.1) about an executable character-level Gallina model of reamber's osu!mania codec "
          "(Formats/Osu.v) against an independent reference semantics of the v14 mania format (Formats/OsuSpec.v: osu_denote, "
-         "wf_osu_text): the reader's column equals clamp(floor(x*keys/512)) for every key count and every integer x, "
-         "column<->x inverse for keys 1..18, bpm/SV code<->value inverses, int() truncation bounds and idempotence (no drift), "
-         "metadata value = everything after the first colon on every line, section split of the model = sections of the format, "
-         "reader = osu_denote on every classified timing-point / SV / hit / hold line, written hit/hold lines are classified, "
-         "parsed back as the truncated note and reproduce themselves in the next generation. "
-         "The model is tied to the code on every run by in-Coq correspondence in both directions (texts -> OsuMap.read, charts -> "
-         "OsuMap.write, write/read generations), with the reference semantics evaluated inside Coq on the implementation's outputs, "
-         "and by exhaustive live tables (x->column for 18 key counts x 528 x values, column->x, whitespace set, sample-set names). "
-         "The two defects found (second colon in metadata values; keys=10 x=256 column) are fixed in the repo (ac204a5, 36d1b4c); "
-         "their failing inputs stay in corpus/C01 and fire again if either repair is reverted.",
+         "wf_osu_text), now at WHOLE-FILE level on decidable domains (the same boolean predicates the runner evaluates as wf): "
+         "C01_osu_read_denotes: for every text with read_domain = wf_read_text && strict_read_text the reader returns exactly "
+         "realize(osu_denote text) - all 30 attributes incl. values with colons, background, sample events, tempo points / SVs "
+         "(code -> value), hits / holds (x -> column for the file's key count, end time); each clause of strict_read_text is "
+         "shown necessary by a *_refuted witness (11 corners where the section-unaware, shape-classifying reader deviates), "
+         "replayed on the real code on every run. C01_osu_write_wf / _write_denotes: for every chart in write_domain (and "
+         "printable numbers) the written file is well formed and denotes the chart with note / sample / preview times "
+         "int()-truncated, columns exact, every attribute present, no row dropped or merged. C01_osu_read_after_write: the written "
+         "text is in the read domain and is read back as an explicit chart. C01_generation_stable: generation 2 denotes what "
+         "generation 1 denotes (hold/hit ties reordered once) and generation 3 = generation 2 character for character. "
+         "Float printers (repr, ':g', str) are explicit oracle parameters of these four theorems (hypothesis: what is printed reads "
+         "back as the value printed); the *_dec6 theorems instantiate them with a concrete 6-decimal printer, no hypothesis left. "
+         "Plus the line-level theorems (column<->x for every key count / every integer x, code<->value, truncation bounds and "
+         "idempotence, metadata cut at the first colon) and exhaustive live tables (x->column for 18 key counts x 528 x values, "
+         "column->x, whitespace set, sample-set names). The model is tied to the code on every run by in-Coq correspondence in "
+         "both directions with the reference semantics evaluated on the implementation's outputs. The two defects found earlier "
+         "(second colon in metadata values; keys=10 x=256) are fixed in the repo (ac204a5, 36d1b4c); their inputs stay in corpus/C01.",
     note="Trusted: Coq kernel+VM, harness generator/serialiser, gen_tables translator, unidecode and float printing as oracles "
-         "(tokens compared by value); binary64 rounding of float()/divisions measured (rounded stream, rel 1e-9) not proved; "
-         "whole-file round-trip theorems are partial (section split, line level and one metadata step proved; lifting to files "
-         "and the 30-key loop checked by correspondence). No known findings.",
+         "(tokens compared by value; in the theorems they are universally quantified parameters with stated hypotheses); binary64 "
+         "rounding of float()/divisions measured (rounded stream, rel 1e-9) not proved. Reported, not defects of the dialect proper: "
+         "outside strict_read_text the reader deviates from the format (e.g. a timing line whose uninherited field is ' 1' or '01' "
+         "is silently dropped; an attribute line in a foreign section is taken; Tags 'a \\t b' yields an empty tag); a Title / "
+         "Artist containing U+2028/U+2029 is transliterated by unidecode to a line feed and breaks the written file "
+         "(C01_write_title_linefeed_refuted) - excluded by write_domain. No known findings inside the domains.",
     technique="Coq proof over executable model + reference interpreter evaluated by vm_compute on implementation outputs",
     design="4/C01")
 
@@ -82,7 +93,8 @@ SECTIONS = ["General", "Editor", "Metadata", "Difficulty"]
 SAMPLESETS = ["None", "Normal", "Soft", "Drum"]
 
 WORDS = ["Tribal", "Trial", "Yooh", "audio.mp3", "Murumoo's", "EXHAUST", "SOUND", "VOLTEX", "a", "x-y_z", "(TV Size)",
-         "日本語", "ピアノ", "Ré", "Zéro", "Ünïcödé", "東方", "№5", "β-test", "~!@#$%^&*()", "it's [7K]", "100%"]
+         "日本語", "ピアノ", "Ré", "Zéro", "Ünïcödé", "東方", "№5", "β-test", "~!@#$%^&*()", "it's [7K]", "100%",
+         "a\u2028b"]      # unidecode maps U+2028 to a line feed (former defect title-linefeed, fixed in fde22cd)
 FILES = ["", "", "clap.wav", "soft-hitnormal2.wav", "ドラム.ogg", "hit 1.wav", "a.b.c"]
 
 
@@ -398,6 +410,23 @@ def generate(rng, tier):
                 if isinstance(v, str):
                     ch2["meta"][kk] = v.replace(":", ";")
             cases.append({"kind": "gen", "stage": 1, "exact": exact, "chart": ch2})
+    # the witnesses of the C01_read_refuted_* theorems (Proofs/OsuRead.v): texts of the read dialect outside the strict
+    # layout, where the reader is PROVED not to return the denoted chart; the correspondence check pins down that the
+    # real reader behaves there exactly as the model says (raises / takes the foreign line / drops the timing line)
+    T4 = ["[Difficulty]", "CircleSize:4", "[TimingPoints]", "[HitObjects]"]
+    BGM, SMM = "//Background and Video events", "//Storyboard Sound Samples"
+    for w in (["[Metadata]", "Title:a", "[Difficulty]", "Title:b", "CircleSize:4", "[TimingPoints]", "[HitObjects]"],
+              ["[Metadata]", "Title"] + T4,
+              ["[Difficulty]", "CircleSize:x", "CircleSize:4", "[TimingPoints]", "[HitObjects]"],
+              ["[Metadata]", "Tags:a \t b"] + T4,
+              T4[:2] + ["[Events]", BGM, '0,0,"a.png",0,0', BGM, '0,0,"b.png",0,0'] + T4[2:],
+              T4[:2] + ["[Events]", BGM + ":x", '0,0,"a.png",0,0'] + T4[2:],
+              T4[:2] + [BGM, '0,0,"a.png",0,0'] + T4[2:],
+              T4[:2] + ["[Events]", SMM, 'SampleX,1,0,"a",70'] + T4[2:],
+              T4[:2] + ["[Events]", SMM, "Sample"] + T4[2:],
+              T4[:3] + ["0,500,4,0,0,0, 1,0"] + T4[3:],
+              T4[:3] + ["[Colours]", "0,500,4,0,0,0,1,0"] + T4[3:]):
+        cases.append({"kind": "read", "exact": True, "lines": w, "keys": 4})
     # a few texts outside the dialect (both sides must raise)
     cases.append({"kind": "read", "exact": True, "lines": ["osu file format v14", "[General]", "Mode: 3"], "keys": 4})
     cases.append({"kind": "read", "exact": True, "lines": [], "keys": 4})
